@@ -417,6 +417,88 @@ pub struct PolicyCase {
     pub reader_bits: Option<usize>,
 }
 
+/// C14(c): a synthetic table layout given to the filter block builder and reader directly (through
+/// the guarded wrapper `raindb::verif::filter_block_roundtrip`): block i occupies `sizes[i]` bytes of
+/// the file (trailer included) and stores `nkeys[i]` user keys. Reaches layouts that no generated
+/// table can have in a test: blocks of many filter ranges, offsets beyond 4 GiB.
+#[derive(Clone, Debug, Serialize, Deserialize, PartialEq, Eq, Hash)]
+pub struct LayoutCase {
+    pub sizes: Vec<u64>,
+    pub nkeys: Vec<u8>,
+    pub exact: bool,
+    pub bits: usize,
+}
+
+pub fn run_layout_case(case: &LayoutCase) -> Result<Vec<&'static str>, String> {
+    let policy: Arc<dyn FilterPolicy> = if case.exact { Arc::new(ExactSetPolicy) } else { Arc::new(BloomFilterPolicy::new(case.bits.clamp(1, 64))) };
+    let mut blocks: Vec<(u64, Vec<Vec<u8>>)> = vec![];
+    let mut off = 0u64;
+    for (i, sz) in case.sizes.iter().enumerate() {
+        let n = (*case.nkeys.get(i).unwrap_or(&1)).clamp(1, 6);
+        let keys: Vec<Vec<u8>> = (0..n).map(|j| if i % 7 == 3 && j == 0 { vec![] } else { format!("b{i}k{j}").into_bytes() }).collect();
+        blocks.push((off, keys));
+        off = off.saturating_add((*sz).max(1));
+    }
+    let answers = raindb::verif::filter_block_roundtrip(policy, &blocks).map_err(|e| format!("the filter block written for a layout of {} blocks cannot be read back: {e}", blocks.len()))?;
+    for (bi, (offset, keys)) in blocks.iter().enumerate() {
+        for (ki, k) in keys.iter().enumerate() {
+            if !answers[bi][ki] {
+                return Err(format!(
+                    "filter block answers 'no match' for key {} stored in data block {bi} at offset {offset} (layout of {} blocks, {} policy)",
+                    hex(k),
+                    blocks.len(),
+                    if case.exact { "exact-set" } else { "bloom" }
+                ));
+            }
+        }
+    }
+    let mut classes = vec![];
+    let ranges: BTreeSet<u64> = blocks.iter().map(|(o, _)| o >> 11).collect();
+    if ranges.len() < blocks.len() {
+        classes.push("layout_blocks_sharing_a_filter_range");
+    }
+    if blocks.windows(2).any(|w| (w[1].0 >> 11) > (w[0].0 >> 11) + 1) {
+        classes.push("layout_block_spanning_several_filter_ranges");
+    }
+    if blocks.iter().any(|(o, _)| *o >= 1 << 32) {
+        classes.push("layout_block_offset_beyond_4GiB");
+    }
+    if blocks.iter().any(|(o, _)| *o >= 1 << 31 && *o < 1 << 32) {
+        classes.push("layout_block_offset_between_2GiB_and_4GiB");
+    }
+    Ok(classes)
+}
+
+fn layout_strategy(huge_permille: u32) -> impl Strategy<Value = LayoutCase> {
+    let size = prop_oneof![
+        40 => 1u64..300,
+        20 => 1990u64..2110,
+        10 => (1u64..40, 0u64..11).prop_map(|(k, d)| k * 2048 + d - 5),
+        10 => 300u64..70_000,
+        2 => 1_000_000u64..40_000_000,
+    ];
+    let huge = prop_oneof![
+        2 => (0u64..4200).prop_map(|d| (1u64 << 32) - 2100 + d),
+        1 => (1u64 << 31)..(5u64 << 30),
+        1 => (0u64..4200).prop_map(|d| (1u64 << 31) - 2100 + d),
+    ];
+    (
+        prop::collection::vec((size, 1u8..5), 1..40),
+        prop::option::weighted(huge_permille as f64 / 1000.0, (huge, 0usize..40)),
+        any::<bool>(),
+        1usize..=64,
+    )
+        .prop_map(|(blocks, huge, exact, bits)| {
+            let mut sizes: Vec<u64> = blocks.iter().map(|b| b.0).collect();
+            let nkeys: Vec<u8> = blocks.iter().map(|b| b.1).collect();
+            if let Some((h, at)) = huge {
+                let at = at.min(sizes.len() - 1);
+                sizes[at] = h;
+            }
+            LayoutCase { sizes, nkeys, exact, bits }
+        })
+}
+
 pub fn replay_body(id: &str, case: &TableCase, msg: &str) -> Value {
     json!({"property": id, "engine": "tablefmt", "case": case, "message": msg})
 }
@@ -514,6 +596,56 @@ pub fn worker(ctx: &WorkerCtx) -> WorkerResult {
             r0.violations.push(ViolationRec { replay: path, message: msg });
             return r0;
         }
+        // (c) synthetic layouts straight into the filter block builder / reader
+        let res = RefCell::new(r0);
+        let failed = RefCell::new(false);
+        let (n_layout, huge_permille) = match ctx.tier {
+            Tier::Quick => (cases / 4, 8),
+            Tier::Thorough => (cases / 4, 20),
+        };
+        let mut runner = TestRunner::new(Config {
+            cases: ctx.share(n_layout) as u32,
+            rng_seed: RngSeed::Fixed(ctx.derived_seed(142)),
+            failure_persistence: None,
+            max_shrink_iters: 400,
+            ..Config::default()
+        });
+        let out = runner.run(&layout_strategy(huge_permille), |lc| {
+            let counting = !*failed.borrow();
+            let mut r = res.borrow_mut();
+            if counting {
+                r.evaluations += 1;
+            }
+            match run_layout_case(&lc) {
+                Ok(classes) => {
+                    if counting {
+                        if !classes.is_empty() {
+                            r.nontrivial_hashes.push(hash_json(&lc));
+                        }
+                        r.bump("filter_block_layout_cases");
+                        for c in classes {
+                            r.bump(c);
+                        }
+                        if r.samples.len() < 2 && lc.sizes.len() <= 12 {
+                            r.samples.push(json!({"filter_block_layout": serde_json::to_value(&lc).unwrap()}));
+                        }
+                    }
+                    Ok(())
+                }
+                Err(e) => {
+                    *failed.borrow_mut() = true;
+                    Err(TestCaseError::fail(e))
+                }
+            }
+        });
+        r0 = res.into_inner();
+        if let Err(TestError::Fail(reason, lc)) = out {
+            let msg = reason.message().to_string();
+            let body = json!({"property": "C14", "engine": "filterlayout", "case": lc, "message": msg});
+            let path = write_replay("C14", ctx.seed, ctx.worker, 3, &body);
+            r0.violations.push(ViolationRec { replay: path, message: msg });
+            return r0;
+        }
     }
     let res = RefCell::new(r0);
     let failed = RefCell::new(false);
@@ -577,6 +709,10 @@ pub fn replay(v: &Value) -> Result<(), String> {
         let pc: PolicyCase = serde_json::from_value(v["case"].clone()).map_err(|e| e.to_string())?;
         let keys: Vec<Vec<u8>> = pc.keys.into_iter().map(|k| k.0).collect();
         return policy_case_rw(&keys, pc.bits, pc.reader_bits.unwrap_or(pc.bits));
+    }
+    if v["engine"] == "filterlayout" {
+        let lc: LayoutCase = serde_json::from_value(v["case"].clone()).map_err(|e| e.to_string())?;
+        return run_layout_case(&lc).map(|_| ());
     }
     let case: TableCase = serde_json::from_value(v["case"].clone()).map_err(|e| e.to_string())?;
     guarded(&case, id == "C13", id == "C14").map(|_| ())
